@@ -488,6 +488,19 @@ static void run_array(struct bench *b, int selidx, const uint32_t *probes, int n
     }
 
     /* ---- sort ---- */
+    if (b->path == P_VECTOR && n >= 2 && (keycode ^ (keycode >> 7) ^ tapecode ^ n ^ (uint64_t)selidx) % 4 == 1) {
+        /* The same vector object is sorted twice with the same function and priv.  Between the two sorts the caller
+         * writes new contents through the data pointer it obtained BEFORE the first sort (still valid: nothing was
+         * reallocated) and calls no accessor.  Whatever the object remembers about the first sort must not matter. */
+        set_ctx(b, "sort", selname[selidx], NULL);
+        shadow_reset(b);
+        tape_pos = 0;
+        VRT_OP2("vector.sort", "first of two sorts of one vector object, algo=%ld n=%ld", selval[selidx], n);
+        if (selidx == S_INLINE) cstl_vector_sort(&b->v, cmp_rec, &X);
+        else __cstl_vector_sort(&b->v, cmp_rec, &X, swap_rec, (cstl_sort_algorithm_t)selval[selidx]);
+        memcpy(b->arr, b->in, bytes);
+        VRT_COUNT("sort.second-sort-after-writing-through-retained-pointer");
+    }
     set_ctx(b, "sort", selname[selidx], NULL);
     shadow_reset(b);
     tape_pos = 0;
@@ -1086,6 +1099,7 @@ static const char *const required[] = {
     "arrays.large.organ-pipe", "arrays.large.sawtooth", "arrays.large.random-many-ties",
     "tape.pivot-tapes-enumerated", "rand.draws.from-tape", "rand.draws.from-fair-prng",
     "sort.null-scratch-with-private-swap", "reverse.null-scratch-with-private-swap", "sort.shadow-verified",
+    "sort.second-sort-after-writing-through-retained-pointer",
     "reverse.shadow-verified",
     "sort.verified", "sort.count-0", "sort.count-1", "cmp.calls.sort", "swap.calls.sort",
     "search.present", "search.absent", "search.absent.below", "search.absent.between", "search.absent.above",
